@@ -275,7 +275,13 @@ def construct(ex, cls: type, args, kwargs, s: St):
         return
     key = ex.project.key_for_function(getattr(cls, "__init__", None))
     if key is not None and ex.project.contracts.get(key):
-        yield from ex.call_repo_function(key, cls.__init__, None, args, kwargs, s, constructing=cls)
+        # contracted constructor: allocate the instance, apply __init__'s contract with it as receiver, hand out the instance
+        obj = alloc(s, cls.__name__, OBJ(cls.__name__) if ex.model.has_class(cls.__name__) else ANY)
+        s.assume(*type_facts(obj, s))
+        if ex.model.has_class(cls.__name__):
+            s.assume(smt.inst_pred(cls.__name__)(obj.t))
+        for s2, r in ex.call_repo_function(key, cls.__init__, obj, args, kwargs, s, constructing=cls):
+            yield s2, (r if isinstance(r, Raised) else obj)
         return
     s.trace.append(("call", cls.__name__, {"args": args, "kwargs": kwargs}))
     v = alloc(s, cls.__name__, OBJ(cls.__name__) if ex.model.has_class(cls.__name__) else ANY)
